@@ -196,7 +196,12 @@ pub fn gen_text(rng: &mut Rng, mode: &str) -> Vec<u32> {
         }
         "brk" => {
             let mut t = vec![];
-            let n = if rng.chance(1, 2) { rng.range(55, 130) } else { rng.range(2, 40) };
+            // around the 63-entry limit of BD16 the exact count matters
+            let n = match rng.below(8) {
+                0 | 1 => rng.range(61, 67),
+                2 | 3 => rng.range(55, 130),
+                _ => rng.range(2, 40),
+            };
             for _ in 0..rng.range(0, 3) {
                 let c = *rng.pick(&[L, R, AL, EN]);
                 t.push(pick_char(rng, c));
